@@ -2,6 +2,7 @@ package checks
 
 import (
 	"crypto/x509"
+	"crypto/x509/pkix"
 	"fmt"
 	"math/big"
 	"os"
@@ -12,7 +13,7 @@ import (
 	"sync"
 	"time"
 
-	"github.com/gr33nbl00d/caddy-revocation-validator/core/verifhook"
+	"github.com/gr33nbl00d/caddy-revocation-validator/core"
 	"github.com/gr33nbl00d/caddy-revocation-validator/crl/crlreader"
 	"github.com/gr33nbl00d/caddy-revocation-validator/crl/crlstore"
 
@@ -104,6 +105,32 @@ type storeFault struct {
 	failCreate  bool
 	failInsertN int // fail the n-th insert (1-based); 0 = never
 	inserts     int
+	// monitor of the live store: lookups inside it, and a gate that keeps them inside
+	inside    int
+	holdReads chan struct{} // non-nil: lookups wait inside the store until it is closed
+	swapping  bool
+	overlaps  []string // lookups and a swap inside the live store at the same time
+}
+
+func (f *storeFault) hold() {
+	f.mu.Lock()
+	f.holdReads = make(chan struct{})
+	f.mu.Unlock()
+}
+
+func (f *storeFault) release() {
+	f.mu.Lock()
+	if f.holdReads != nil {
+		close(f.holdReads)
+		f.holdReads = nil
+	}
+	f.mu.Unlock()
+}
+
+func (f *storeFault) insideNow() int {
+	f.mu.Lock()
+	defer f.mu.Unlock()
+	return f.inside
 }
 
 type faultFactory struct {
@@ -131,7 +158,7 @@ func (ff faultFactory) CreateStore(id string, temporary bool) (crlstore.CRLStore
 		return s, err
 	}
 	if !temporary {
-		return &liveUnwrap{s}, nil // the live store must accept wrapped staging stores in Update
+		return &liveUnwrap{s, ff.f}, nil // the live store must accept wrapped staging stores in Update
 	}
 	return &faultStore{CRLStore: s, f: ff.f}, nil
 }
@@ -166,9 +193,44 @@ func unwrapStore(s crlstore.CRLStore) crlstore.CRLStore {
 }
 
 // liveUnwrap makes the live store's Update accept wrapped staging stores.
-type liveUnwrap struct{ crlstore.CRLStore }
+type liveUnwrap struct {
+	crlstore.CRLStore
+	f *storeFault
+}
 
-func (l *liveUnwrap) Update(n crlstore.CRLStore) error { return l.CRLStore.Update(unwrapStore(n)) }
+func (l *liveUnwrap) Update(n crlstore.CRLStore) error {
+	l.f.mu.Lock()
+	l.f.swapping = true
+	if l.f.inside > 0 {
+		l.f.overlaps = append(l.f.overlaps, fmt.Sprintf("swap began with %d lookups inside the store", l.f.inside))
+	}
+	l.f.mu.Unlock()
+	defer func() {
+		l.f.mu.Lock()
+		l.f.swapping = false
+		l.f.mu.Unlock()
+	}()
+	return l.CRLStore.Update(unwrapStore(n))
+}
+
+func (l *liveUnwrap) GetCertRevocationStatus(issuer *pkix.RDNSequence, serial *big.Int) (*core.RevocationStatus, error) {
+	l.f.mu.Lock()
+	l.f.inside++
+	if l.f.swapping {
+		l.f.overlaps = append(l.f.overlaps, "lookup entered the store during a swap")
+	}
+	gate := l.f.holdReads
+	l.f.mu.Unlock()
+	if gate != nil {
+		<-gate
+	}
+	defer func() {
+		l.f.mu.Lock()
+		l.f.inside--
+		l.f.mu.Unlock()
+	}()
+	return l.CRLStore.GetCertRevocationStatus(issuer, serial)
+}
 
 func newRepoWorld(disk bool, sig string, strict bool, seed int64) (*repoWorld, error) {
 	rw := &repoWorld{disk: disk, org: origin.New(), probes: map[string]*pki.Leaf{}, chains: map[string][][]*x509.Certificate{}, step: newStepper(), fault: &storeFault{}, filler: 40}
@@ -189,7 +251,7 @@ func newRepoWorld(disk bool, sig string, strict bool, seed int64) (*repoWorld, e
 		return nil, err
 	}
 	rw.w = w
-	verifhook.Set(rw.step.handler)
+	world.SetHandler(rw.step.handler)
 	if err := w.Provision(); err != nil {
 		return nil, err
 	}
@@ -203,7 +265,7 @@ func (rw *repoWorld) close() {
 	rw.step.mu.Lock()
 	rw.step.active = false
 	rw.step.mu.Unlock()
-	verifhook.Set(nil)
+	world.SetHandler(nil)
 	if rw.w != nil {
 		func() {
 			defer func() { recover() }()
